@@ -235,8 +235,8 @@ func (msg *MsgSendToPalomaClaim) ValidateClaimFields() error {
 var VerifEntries = map[string]func(){
 	"VerifC11_SaleJoint":    VerifC11_SaleJoint,
 	"VerifC11_DepositJoint": VerifC11_DepositJoint,
-	"VerifC11_Deposit": VerifC11_Deposit,
-	"VerifC11_Batch":   VerifC11_Batch,
-	"VerifC11_Sale":    VerifC11_Sale,
-	"VerifC11_Chain":   VerifC11_Chain,
+	"VerifC11_Deposit":      VerifC11_Deposit,
+	"VerifC11_Batch":        VerifC11_Batch,
+	"VerifC11_Sale":         VerifC11_Sale,
+	"VerifC11_Chain":        VerifC11_Chain,
 }
